@@ -187,7 +187,10 @@ def run(ctx: Ctx) -> None:
                 continue
             a_txt, b_txt = txt(sides[0]), txt([s for s in sides if s.value.id != sides[0].value.id][0])  # type: ignore[attr-defined]
             differ = bool(mini_eval(n.test, {a_txt: 1, b_txt: 2}))
+            differ2 = bool(mini_eval(n.test, {a_txt: 2, b_txt: 1}))
             equal = bool(mini_eval(n.test, {a_txt: 1, b_txt: 1}))
+            if differ != differ2:
+                continue  # one-sided comparison: not an (in)equality test
             lab = "T" if differ else "F"
             tg = {v for (_u, v) in gcfg.test_edges(n, lab)}
             raises = [x for x in walk_scope(n) if isinstance(x, ast.Raise)]
@@ -201,9 +204,10 @@ def run(ctx: Ctx) -> None:
     for n in cnt:
         lens = [c for c in ast.walk(n.test) if isinstance(c, ast.Call) and isinstance(c.func, ast.Name) and c.func.id == "len"]
         d = bool(mini_eval(n.test, {txt(lens[0]): 2, txt(lens[1]): 3}))
+        d2 = bool(mini_eval(n.test, {txt(lens[0]): 3, txt(lens[1]): 2}))
         e = bool(mini_eval(n.test, {txt(lens[0]): 2, txt(lens[1]): 2}))
         tg = {v for (_u, v) in gcfg.test_edges(n, "T" if d else "F")}
-        if d != e and tg and gcfg.exit not in gcfg.reach(tg):
+        if d == d2 and d != e and tg and gcfg.exit not in gcfg.reach(tg):
             okc = True
     ctx.check(okc, "RF-TABLE", "signature-compares:field-count", sig, cnt[0] if cnt else None, ok="a different number of fields is refused", bad="field count is not compared (added/dropped columns reach the method)")
     # unexpected / missing names raise
